@@ -3,7 +3,7 @@
 Design-phase feasibility probe.  Heap objects are concrete Python graphs; scalars may be z3 terms;
 branching on a symbolic scalar forks (re-execution with a decision prefix, solver-pruned).
 """
-import re, sys, math, itertools, time, struct
+import re, sys, os, math, itertools, time, struct
 from .mirparse import parse_mir, Func, parse_operand
 import z3
 
@@ -208,6 +208,7 @@ class Machine:
         self.impl_index = {}  # (type, trait|None, method) -> func name
         self.free_index = {}
         self.solver = z3.Solver()
+        self.solver.set('timeout', int(os.environ.get('VERIF_SOLVER_TIMEOUT_MS', '60000')))
         self.solver.push()
         self.pc = []          # path condition (z3 bools)
         self.decisions = []   # replay prefix: list of (tag, value); tag 'b' branch, 'c' choose, 'z' concretize
@@ -710,6 +711,10 @@ class Machine:
             return self.call(f, [])
         if k == 'named':
             n = c[1]
+            mm = re.fullmatch(r'(?:std::|core::)?([iu](?:8|16|32|64|128|size))::(MIN|MAX)', n)
+            if mm:
+                lo, hi = int_range(mm.group(1))
+                return lo if mm.group(2) == 'MIN' else hi
             f = self.funcs.get(n)
             if f is not None and f.kind == 'constval': return self.const(f.value)
             if f is not None and f.kind in ('const',): return self.call(f, [])
